@@ -19,27 +19,32 @@ import (
 func init() { commands["c08"] = c08Main }
 
 type c08Def struct {
-	K  string `json:"k"`
-	V  int    `json:"v"`
-	To string `json:"to"`
-	Fb int    `json:"fb"`
+	K   string `json:"k"`
+	V   int    `json:"v"`
+	To  string `json:"to"`
+	To2 string `json:"to2"`
+	Fb  int    `json:"fb"`
 }
 
 type c08Scn struct {
 	Mode string          `json:"mode"`
 	Scn  json.RawMessage `json:"scn"`
 	Want int             `json:"want"`
+	Pair []int           `json:"pair"`
 	// blocks
 	Block  []string `json:"block"`
 	Top    int      `json:"top"`
 	Bottom int      `json:"bottom"`
 	// shorthands
-	Trbl []int             `json:"trbl"`
-	Flex []json.RawMessage `json:"flex"`
+	Trbl    []int             `json:"trbl"`
+	Flex    []json.RawMessage `json:"flex"`
+	Columns []string          `json:"columns"`
 }
 
 func c08Main(args []string) int {
-	return drv.Main("c08", args, func(fs *flag.FlagSet) {}, func(line []byte, out *drv.Out) {
+	return drv.Main("c08", args, func(fs *flag.FlagSet) {
+		fs.StringVar(&c08MetaPath, "meta", "", "property-index data of Defaulting.tla")
+	}, func(line []byte, out *drv.Out) {
 		var s c08Scn
 		if err := json.Unmarshal(line, &s); err != nil {
 			out.Fatal("bad scenario: " + err.Error())
@@ -103,7 +108,24 @@ func c08Vars(s *c08Scn, line []byte, out *drv.Out) {
 			if d.To == name {
 				cyc = true
 			}
+		case "nest":
+			b.WriteString(fmt.Sprintf("--%s: var(--%s, var(--%s, 3px)); ", name, d.To, d.To2))
 		}
+	}
+	if sc.Prop == "pair" {
+		doc := `<html><head><style>p{ ` + b.String() + `margin: var(--a, 1px) var(--b, 2px) }</style></head><body><p>x</p></body></html>`
+		out.Count("vars")
+		st, err := c08Probe(doc)
+		if err != nil {
+			out.Fatal(err.Error())
+			return
+		}
+		t, ok1 := pxOf(st.GetMarginTop())
+		r, ok2 := pxOf(st.GetMarginRight())
+		if !ok1 || !ok2 || t != float64(s.Pair[0]) || r != float64(s.Pair[1]) {
+			out.Disagree("var:two-references", fmt.Sprintf("%s: margin-top/right compute to %v/%v, CSS requires %d/%d px", doc, st.GetMarginTop(), st.GetMarginRight(), s.Pair[0], s.Pair[1]), map[string]interface{}{"doc": doc})
+		}
+		return
 	}
 	probe := "var(--a)"
 	if sc.ProbeFb != 0 {
@@ -339,6 +361,70 @@ func c08Shorthands(s *c08Scn, line []byte, out *drv.Out) {
 				return
 			}
 		}
+	case "columns":
+		var t struct {
+			T string `json:"t"`
+		}
+		json.Unmarshal(sc.S, &t)
+		doc := `<html><body><p style="font-size:10px;column-width:55px;column-count:7;columns:` + t.T + `">x</p></body></html>`
+		st, err := c08Probe(doc)
+		if err != nil {
+			out.Fatal(err.Error())
+			return
+		}
+		gw, gc := "auto", "auto"
+		if w := st.GetColumnWidth(); w.S == "" {
+			gw = fmt.Sprintf("%gem", float64(w.Value)/10)
+		}
+		if c := st.GetColumnCount(); c.String == "" {
+			gc = fmt.Sprint(c.Int)
+		}
+		if gw != s.Columns[0] || gc != s.Columns[1] {
+			out.Disagree("shorthand:columns:"+t.T, fmt.Sprintf("%s: columns computes to width %s count %s, CSS requires %s %s", doc, gw, gc, s.Columns[0], s.Columns[1]), map[string]interface{}{"doc": doc})
+		}
+	case "list-style", "flex-flow":
+		var t struct {
+			Parts []string `json:"parts"`
+		}
+		json.Unmarshal(sc.S, &t)
+		has := map[string]bool{}
+		var vals []string
+		text := map[string]string{"type": "square", "position": "inside", "image": "url(http://verif.test/i.png)", "direction": "column", "wrap": "wrap"}
+		for _, p := range t.Parts {
+			has[p] = true
+			vals = append(vals, text[p])
+		}
+		var doc string
+		if sc.Kind == "list-style" {
+			doc = `<html><body><p style="list-style-type:decimal;list-style-position:inside;list-style-image:url(http://verif.test/j.png);list-style:` + strings.Join(vals, " ") + `">x</p></body></html>`
+		} else {
+			doc = `<html><body><p style="flex-direction:row-reverse;flex-wrap:wrap-reverse;flex-flow:` + strings.Join(vals, " ") + `">x</p></body></html>`
+		}
+		// reference: the same longhands written out, omitted parts at their initial value
+		pick := func(part, set, initial string) string {
+			if has[part] {
+				return set
+			}
+			return initial
+		}
+		var ref string
+		if sc.Kind == "list-style" {
+			ref = `<html><body><p style="list-style-type:` + pick("type", "square", "disc") + `;list-style-position:` + pick("position", "inside", "outside") + `;list-style-image:` + pick("image", "url(http://verif.test/i.png)", "none") + `">x</p></body></html>`
+		} else {
+			ref = `<html><body><p style="flex-direction:` + pick("direction", "column", "row") + `;flex-wrap:` + pick("wrap", "wrap", "nowrap") + `">x</p></body></html>`
+		}
+		a, err1 := c04Styles(doc)
+		b, err2 := c04Styles(ref)
+		if err1 != nil || err2 != nil {
+			out.Fatal("styles failed")
+			return
+		}
+		for k := pr.KnownProp(1); k < pr.NbProperties; k++ {
+			if a.digest(2, k) != b.digest(2, k) {
+				out.Disagree("shorthand:"+sc.Kind+":"+strings.Join(t.Parts, "+"), fmt.Sprintf("%s computes %s differently from its longhand expansion %s", doc, k, ref), map[string]interface{}{"doc": doc, "ref": ref})
+				return
+			}
+		}
 	case "flex":
 		var t struct {
 			T string `json:"t"`
@@ -434,6 +520,18 @@ func c08Spellings(s *c08Scn, line []byte, out *drv.Out) {
 		Variant string `json:"variant"`
 	}
 	json.Unmarshal(s.Scn, &sc)
+	if sc.Decl == "look-alike" {
+		c08LookAlike(sc.Variant, out)
+		return
+	}
+	if sc.Decl == "all-properties" {
+		var full struct {
+			Custom []string `json:"custom"`
+		}
+		json.Unmarshal(s.Scn, &full)
+		c08AllProps(sc.Variant, full.Custom, out)
+		return
+	}
 	d := c08SpellDecls[sc.Decl]
 	canon := d.name + ":" + d.value
 	variant := c08Variant(d, sc.Variant)
@@ -463,3 +561,80 @@ func c08Spellings(s *c08Scn, line []byte, out *drv.Out) {
 		}
 	}
 }
+
+// non-ASCII look-alikes next to an ASCII capital: the declaration must be dropped, alone
+func c08LookAlike(variant string, out *drv.Out) {
+	var bad string
+	switch variant {
+	case "kelvin-name":
+		bad = "Bac\u212Aground-color: rgb(1, 2, 3)"
+	case "dotted-i-keyword":
+		bad = "visibility: H\u0130DDEN"
+	case "kelvin-keyword":
+		bad = "border-top-width: THIC\u212A"
+	}
+	out.Count("spellings")
+	block := "background-color: rgb(9, 9, 9); visibility: visible; border-top-style: solid; border-top-width: 1px; " + bad + "; margin-top: 3px"
+	ref := "background-color: rgb(9, 9, 9); visibility: visible; border-top-style: solid; border-top-width: 1px; margin-top: 3px"
+	if c08Digest(bad) != "" {
+		out.Disagree("spelling:"+variant, fmt.Sprintf("%q contains a non-ASCII look-alike and must be dropped, it is accepted as %s", bad, c08Digest(bad)), map[string]interface{}{"decl": bad})
+		return
+	}
+	if c08Digest(block) != c08Digest(ref) {
+		out.Disagree("spelling:"+variant+":not-dropped-alone", fmt.Sprintf("the block %q does not mean %q", block, ref), nil)
+	}
+}
+
+// every supported property with the explicit value discovered for it (see c04Setup)
+func c08AllProps(variant string, custom []string, out *drv.Out) {
+	c04MetaPath = c08MetaPath
+	if !c04Setup(out) {
+		return
+	}
+	isCustom := map[string]bool{}
+	for _, c := range custom {
+		isCustom[c] = true
+	}
+	for k := pr.KnownProp(1); k < pr.NbProperties; k++ {
+		name := k.String()
+		val := c04Explicit[k]
+		if val == "" {
+			continue
+		}
+		canon := c08Digest(name + ":" + val)
+		if canon == "" {
+			continue
+		}
+		out.Count("spellings")
+		switch variant {
+		case "upper-name":
+			if d := c08Digest(strings.ToUpper(name) + ":" + val); d != canon {
+				out.Disagree("spelling:upper-name", fmt.Sprintf("%s:%s means %s but with the name in upper case %s", name, val, canon, d), map[string]interface{}{"prop": name})
+			}
+		case "upper-value":
+			if strings.ContainsAny(val, "\"") || strings.Contains(val, "url(") || strings.Contains(val, "zz") || strings.Contains(val, "attr(") || strings.Contains(val, "counter(") || val == "a" {
+				continue // strings, urls and author-defined identifiers are case-sensitive
+			}
+			if isCustom[name] {
+				continue // the explicit value may be an author-defined identifier
+			}
+			if d := c08Digest(name + ":" + strings.ToUpper(val)); d != canon {
+				out.Disagree("spelling:upper-value:"+name, fmt.Sprintf("%s:%s means %s but %s:%s means %s", name, val, canon, name, strings.ToUpper(val), d), map[string]interface{}{"prop": name, "value": val})
+			}
+		case "garbage-value":
+			d := c08Digest(name + ": zzunknown-value-9")
+			if d != "" && !isCustom[name] {
+				out.Disagree("invalid-value-accepted:"+name, fmt.Sprintf("%s: zzunknown-value-9 is not a value of the property but is accepted as %s", name, d), map[string]interface{}{"prop": name})
+				continue
+			}
+			// dropped alone: the valid declaration before it keeps its effect, the one after too
+			block := name + ":" + val + "; " + name + ": zzunknown-value-9 9 9 !; margin-top: 3px"
+			ref := name + ":" + val + "; margin-top: 3px"
+			if c08Digest(block) != c08Digest(ref) {
+				out.Disagree("invalid-value-not-dropped-alone:"+name, fmt.Sprintf("the block %q does not mean %q", block, ref), map[string]interface{}{"prop": name})
+			}
+		}
+	}
+}
+
+var c08MetaPath string
